@@ -44,6 +44,29 @@ Three flavours observe the same boundary:
             oracle is the same as everywhere: the structure that was formatted
             into the field, ``[]`` for a documented absent field.
 
+``size``    SIZE and REPETITION.  Real relationship fields are long (hundreds of
+            comma clauses, kilobytes of text), and nothing in the statement bounds
+            them.  Every run contains, as named classes: fields of 20 / 40 / 70 /
+            150 / 400 comma clauses; alternatives groups of 10 / 17 / 30 members;
+            architecture lists of 10 / 15 / 20 names; restriction formulas of
+            3x2 / 4x3 / 5x4 / 6x5 (groups x terms); all of these together; fields
+            padded so that the text ``str`` returns is just longer than 80 / 200 /
+            998 / 1000 / 4096 / 10000 characters (the length classes are COUNTED
+            on the string the live ``str`` returned, not on what the generator
+            aimed at); a single atom longer than 80 / 200 characters (a value
+            without any comma); and fields with exactly repeated clauses
+            (``a (>= 1), b, a (>= 1)``; the same alternatives group twice,
+            adjacent and apart; the same alternative twice inside one group; one
+            clause n times; a whole field twice; repeats scattered through a long
+            field) - the structure is a list of lists, so both occurrences are
+            part of it.  Every size case is judged at the bare boundary (``M``,
+            ``M.idem``, ``M.order``; counted as ``M.size``) AND through
+            ``Packages`` / ``Sources`` ``.relations[field]`` (``M.size.deb822``;
+            paragraph built from text, lines, a mapping, ``iter_paragraphs``; the
+            long field first, between or after short ones).  The oracle is the
+            unchanged one: the structure itself.  A witness is reduced to a single
+            atom if one fails alone, else to a short failing run of clauses.
+
 The history flavour is generated last, so its in-place edits cannot influence
 the other flavours.  Witnesses of the ``rt`` flavour carry ``repeat: 2`` (the
 same structure is round-tripped twice on replay), so that a defect which needs
@@ -107,7 +130,20 @@ RULE = ('Relation structures of 1..4 AND-groups x 1..3 alternatives (thorough: u
         'random read paths and subscripts.  In half of the plans the object returned by the first .relations access of a '
         'paragraph is kept and re-read, in the other half .relations is fetched at every step.  Every value read for a '
         'present field must be the structure that was formatted into it (values, types, second formatting), every value '
-        'read for a documented relationship field the paragraph lacks must be [].')
+        'read for a documented relationship field the paragraph lacks must be [].  Size flavour (20 / 600 repetitions of 41 named '
+        'classes): fields of 20, 40, 70, 150, 400 comma clauses (thorough also a random count up to 600; four fifths of the '
+        'clauses one atom, the rest 2..3 alternatives; atoms mostly name or name+version as in real fields, a third with '
+        'random optional parts); one alternatives group of 10, 17, 30 members inside a short field; one atom with an '
+        'architecture list of 10, 15, 20 names (plain, negated or mixed); one atom with a restriction formula of 3x2, 4x3, '
+        '5x4, 6x5 groups x terms; all of that in one field of 40..70 clauses; fields padded (by the length of the last '
+        'package name) to a PkgRelation.str length 1..40 characters above 80, 200, 998, 1000, 4096, 10000; a single atom '
+        '(no comma in the value) longer than 80 and longer than 200 characters; and exactly repeated clauses: X, X, Y / '
+        'X, Y, X / the same alternatives group twice (adjacent; apart) / a | b | a inside one group / one clause 2..6 times '
+        '/ a whole field twice / 5..10 repeats scattered through 40..70 clauses / a repeated atom with all optional parts '
+        '(the copy may reach str with another dict key order).  Every size case is round-tripped at the bare boundary and '
+        'read through Packages / Sources .relations[field] (the long field first, between or after short fields; '
+        'paragraph from text, lines, a mapping, iter_paragraphs).  The clause count, widest group, longest architecture '
+        'list, largest formula, repeated clauses and the length of the formatted value are measured on the executed case.')
 ASSUMPTIONS = [
     'domain restricted to what the statement quantifies over: lower-case policy-valid package names, the five operators, '
     'version strings dpkg accepts (vp.models.dpkgver.classify == accept, upstream starting with a digit), architecture '
@@ -121,6 +157,17 @@ ASSUMPTIONS = [
     'insertion order is the same input: str must give the same string for it and parse must give back an == structure; '
     'nothing is demanded about the key order of the dicts parse_relations returns',
     'only the text produced by PkgRelation.str is parsed (no alternative spacing, no folded field values)',
+    'size flavour: the statement bounds neither the number of clauses, alternatives, architecture names, restriction groups '
+    'and terms nor the length of the formatted value, and a structure is a list of lists, so a clause (or an alternative '
+    'inside a group) that occurs twice is two elements of it; sizes stay within what real archives carry by less than one '
+    'order of magnitude (<= 600 clauses, <= 30 alternatives, <= 20 architecture names, <= 6 groups x 5 terms, values up to '
+    'about 20 kB; names up to about 60 characters where a value is padded to an exact length) - nothing is claimed about '
+    'larger inputs (e.g. recursion depth at thousands of clauses)',
+    'size flavour: nothing is demanded about the SHAPE of the text str returns (no model formatter is used as an oracle; it '
+    'only sizes the generated cases): a value that str chose to fold would be accepted as long as parse_relations gives the '
+    'structure back without a warning, str of that gives the same text, and - paragraph route - the text written after '
+    '"Field: " by the harness reads back through .relations as the structure and formats back to the field value; the '
+    'length classes are counted on the text the live str returned',
     'view flavour: .relations is documented as a dictionary whose keys depend on the package kind and whose values are the '
     'parsed relationships; the keys demanded are the lower-case relationship field names of the class (Packages: depends, '
     'pre-depends, recommends, suggests, breaks, conflicts, provides, replaces, enhances, built-using; Sources: the six '
